@@ -8,7 +8,8 @@ def handlers : List (List String → Option String) := [
   handleParse,
   handleVisit,
   handleEnc,
-  CtxDb.handleDb
+  CtxDb.handleDb,
+  handleInput
 ]
 
 def handle (fields : List String) : String :=
